@@ -54,6 +54,8 @@ for pid in sorted({r[0] for r in results.values()}):
     subprocess.run([os.path.join(here, "check"), pid], cwd=here, capture_output=True, text=True)
 # keep the outcome of the latest run of every seeded change (read by tools/seeded_table.py for DESIGN.md)
 resfile = os.path.join(seeded, "results.json")
+import fcntl
+_lk = open(os.path.join(seeded, ".results.lock"), "w"); fcntl.flock(_lk, fcntl.LOCK_EX)   # parallel invocations
 allres = json.load(open(resfile)) if os.path.exists(resfile) else {}
 head = subprocess.run(["git", "-C", "/repo", "rev-parse", "--short", "HEAD"], capture_output=True, text=True).stdout.strip()
 for n, r in results.items():
